@@ -2,6 +2,7 @@
 Real handlers (serve_dir, serve_as_file_path, server directory_handler) on real directory trees vs the Coq model over an
 abstract file tree; direct oracle: a 200 body must be the content of a file under the root (never the canary), every clean
 file is served with its content and MIME type, directories redirect / serve index files."""
+import re
 import urllib.parse
 from hv import hx, V
 
@@ -14,8 +15,20 @@ NEEDS_TOKIO = True
 ASSUMPTIONS = ['no symlinks, no concurrent file changes, UTF-8 file names, case-sensitive file system',
                'the model root is the temporary base directory: resolution above it is not modelled (never reached after F14)']
 
+def quote_mix(rng, seg):
+    """percent-encode everything outside the unreserved set; hex digits in upper case (as urllib writes them), lower case or
+    mixed, per escape"""
+    def case(m):
+        e = m.group(0)
+        r = rng.random()
+        return e if r < 0.5 else e.lower() if r < 0.8 else e[:2] + e[2].lower() if r < 0.9 else e[:2].lower() + e[2]
+    return re.sub(r'%[0-9A-F]{2}', case, urllib.parse.quote(seg, safe=''))
+
+
 NAMES = ['a.txt', 'b', 'c.tar.gz', 'index.html', 'index.htm', 'sp ace.css', 'é.js', 'x.png', '.hidden', 'dot.', 'UP.JSON', 'q%41.txt',
-         'p+q.html', 'n.woff2']
+         'p+q.html', 'n.woff2',
+         # names whose escapes have the hex digit F in either position, a 4-byte character, DEL
+         'what?.txt', 'straße.txt', 'naïve ÿ.txt', 'smile😀.txt', 'del\x7f.css', 'o\x0fk.js']
 DIRS = ['sub', 'deep', 'a b', 'ü', 'd.d', 'static', 'st']
 SEGS = ['.', '..', '...', '', '%2e%2e', '%2E.', '.%2e', '%2f', '%5c', '%00', '%252e', '%c0%ae', '..%2f', '%2e', '....', ':', 'C:',
         '%3a', '\\..', '%ff']
@@ -97,11 +110,11 @@ def server_part(ctx):
                    ['%s:d' % hx('www'), '%s:%s' % (hx('secret.txt'), hx(canary)), '%s:%s' % (hx('wwwx/other.txt'), hx(canary))]
         targets = []
         for f in files:
-            enc = '/'.join(urllib.parse.quote(seg, safe='') for seg in f.split('/'))
+            enc = '/'.join(quote_mix(rng, seg) for seg in f.split('/'))
             for pre in ('/', '/static/', '/st', '/files/'):
                 targets.append(pre + enc)
         for d in list(dirs) + ['']:
-            enc = '/'.join(urllib.parse.quote(seg, safe='') for seg in d.split('/')) if d else ''
+            enc = '/'.join(quote_mix(rng, seg) for seg in d.split('/')) if d else ''
             targets += ['/' + enc, '/' + enc + '/', '/static/' + enc] if d else ['/', '/static/']
         names = list(files.keys()) + list(dirs) + ['secret.txt', 'wwwx', 'other.txt', 'www']
         for _ in range(60 if thorough else 40):
@@ -111,7 +124,7 @@ def server_part(ctx):
                     segs.append(rng.choice(SEGS))
                 else:
                     n = rng.choice(names).split('/')[-1] if names else 'x'
-                    segs.append(urllib.parse.quote(n, safe=''))
+                    segs.append(quote_mix(rng, n))
             t = rng.choice(['/', '/static/', '/files/', '/st', '//']) + '/'.join(segs)
             targets.append(t)
         for nsl in (1, 2, 3):
@@ -190,12 +203,12 @@ def run(ctx):
         # completeness: every file and directory once, under several route prefixes
         for f in files:
             clean = '..' not in f and ':' not in f
-            enc = '/'.join(urllib.parse.quote(seg, safe='') for seg in f.split('/'))
+            enc = '/'.join(quote_mix(rng, seg) for seg in f.split('/'))
             add('serve_dir', '/*', '/' + enc, ('file', f, clean))
             add('serve_dir', '/static/*', '/static/' + enc, ('file', f, clean))
             add('directory', '/*', '/' + enc, ('file', f, clean))
             add('directory', '/st/*', '/st/' + enc, ('file', f, clean))
-            if '%' not in f:
+            if '%' not in f and '?' not in f:
                 add('serve_as_file_path', '/*', '/' + f, ('file', f, clean))
             # the route prefix is removed once: a file below a directory named like the prefix is still found
             seg0 = f.split('/')[0]
@@ -206,7 +219,7 @@ def run(ctx):
                 add('serve_dir', '/' + seg0 + '/*', '/' + seg0 + '//' + enc, ('adv', None, None))
                 add('directory', '/' + seg0 + '/*', '/' + seg0 + '//' + enc, ('adv', None, None))
         for d in list(dirs) + ['']:
-            enc = '/'.join(urllib.parse.quote(seg, safe='') for seg in d.split('/')) if d else ''
+            enc = '/'.join(quote_mix(rng, seg) for seg in d.split('/')) if d else ''
             if d:
                 add('serve_dir', '/*', '/' + enc, ('dir', d, True))
                 add('directory', '/*', '/' + enc, ('dir', d, True))
@@ -252,7 +265,7 @@ def run(ctx):
                     segs.append(rng.choice(SEGS))
                 else:
                     n = rng.choice(names).split('/')[-1] if names else 'x'
-                    segs.append(urllib.parse.quote(n, safe='') if rng.random() < 0.5 else n)
+                    segs.append(quote_mix(rng, n) if rng.random() < 0.5 else n)
             uri = '/' + '/'.join(segs)
             if rng.random() < 0.15:
                 uri = '/' + uri
